@@ -1102,7 +1102,7 @@ package iavl
 
 // rollback = load the target, delete everything above it, commit that, rebuild the index
 //@ func (*MutableTree).LoadVersionForOverwriting(tree, targetVersion) (err)
-//@   props C09 C07
+//@   props C09 C07 C12
 //@   nosafety
 //@   requires tree != nil && tree.ndb != nil && allocated(tree.ndb) && tree.ndb.db != nil && targetVersion < 9223372036854775807
 //@   requires tree.ndb.legacyLatestVersion == 0 - 1 && tree.ndb.firstVersion > 0 && tree.ndb.latestVersion > 0
